@@ -45,6 +45,9 @@ def run(ctx):
     from wavespectra.core.attributes import attrs
     from wavespectra.partition import specpart
 
+    # numpy's default error state (the worker silences it for the other checks): warning-only operations must
+    # really warn, so that a leaked process-global warning filter is observable
+    np.seterr(divide="warn", over="warn", invalid="warn", under="ignore")
     so = specpart.__file__
     cl = Client(so)
     samples = os.path.join(repo_root(), "tests", "sample_files")
